@@ -4,7 +4,7 @@ from common import Err
 RULE = "rules smoke"
 model_post = ruleslib.model_post
 def gen_cases(rng, tier):
-    return ruleslib.gen_rule_cases(rng, 600 if tier == "quick" else 5000, rule_pool=[r for r in ruleslib.RANK_RULES+ruleslib.SCORE_RULES if r not in ("STV","IRV","SequentialRCV")])
+    return ruleslib.gen_rule_cases(rng, 600 if tier == "quick" else 5000, rule_pool=None)
 def run_case(case):
     info, mc = ruleslib.run_rule_case(case)
     el = info["election"]
